@@ -186,24 +186,35 @@ class Builder(object):
             return render
         return fac
 
-    def nested(self, levels):
+    def nested(self, levels, style='constructor', prebuilt=None):
+        """style 'add0': the embedded level is added with add(entry, 0) after the level's own routes.
+        prebuilt: (application, instances) of the innermost level, to embed one application object again."""
         from clastic import Application, Route, SubApplication
         insts = {}
         app = None
         for k in range(len(levels) - 1, -1, -1):
             lv = levels[k]
+            if prebuilt is not None and k == len(levels) - 1:
+                app = prebuilt[0]
+                insts.update(prebuilt[1])
+                continue
             mws = [self.CLS[n]('%s@%d' % (n, k)) for n in lv['mws']]
             for n, m in zip(lv['mws'], mws):
                 insts[(n, k)] = m
             routes = []
+            sub_entry = None
             if app is not None:
                 sub = levels[k + 1]
-                routes.append(SubApplication(sub['prefix'], app, rebind_render=sub['rebind'], inherit_slashes=sub['inherit']))
+                sub_entry = SubApplication(sub['prefix'], app, rebind_render=sub['rebind'], inherit_slashes=sub['inherit'])
+                if style != 'add0':
+                    routes.append(sub_entry)
             for r in lv['routes']:
                 routes.append(Route(r['pattern'], self.EPS[r['endpoint']], r.get('render'), methods=r.get('methods')))
             kw = {'error_handler': self.handler(k, k == 0 and lv.get('debug'))}
             app = Application(routes, resources=lv['res'], middlewares=mws, slash_mode=lv['slash'],
                               render_factory=self.factory(lv['factory']) if lv['factory'] else None, **kw)
+            if sub_entry is not None and style == 'add0':
+                app.add(sub_entry, 0)
         return app, insts
 
     def flat(self, levels, insts):
@@ -241,10 +252,10 @@ def describe(levels):
     return [dict((k, v) for k, v in lv.items() if k not in ('unique', 'routes')) for lv in levels]
 
 
-def check_tree(acc, b, levels, layer):
-    case = {'levels': levels, 'layer': layer}
+def check_tree(acc, b, levels, layer, style='constructor', prebuilt=None):
+    case = {'levels': levels, 'layer': layer, 'style': style}
     try:
-        nested, insts = b.nested(levels)
+        nested, insts = b.nested(levels, style, prebuilt)
     except Exception as e:
         acc.violation('C10:nested-construct:%s' % type(e).__name__, 'nested tree rejected: %r; %r' % (e, describe(levels)), case)
         return
@@ -276,6 +287,10 @@ def check_tree(acc, b, levels, layer):
                     fields = ['status', 'body', 'location', 'content-type', 'mw-trace', 'raised', 'error-handler']
                     diff = [fields[i] for i in range(7) if a[i] != f[i]]
                     feat = []
+                    if style == 'add0':
+                        feat.append('added-at-index')
+                    if prebuilt is not None:
+                        feat.append('embedded-again')
                     if any(not lv['inherit'] for lv in levels[1:]):
                         feat.append('own-slashes')
                     if any(lv['rebind'] for lv in levels[1:]):
@@ -285,6 +300,36 @@ def check_tree(acc, b, levels, layer):
                     acc.violation('C10:differs:%s:%s:%s' % ('+'.join(diff), a[0][:3] + '-vs-' + f[0][:3], '+'.join(feat) or 'plain'),
                                   '%s %s: nested %r, flat %r; tree=%r' % (m, path, a, f, describe(levels)),
                                   dict(case, path=path, method=m))
+
+
+def reuse_cases():
+    """One inner application object embedded twice, into differently configured outer applications."""
+    outers = []
+    for fac in (None, 'F0'):
+        for reb in (False, True):
+            for slash, mws in ((S_REDIRECT, 'none'), (S_STRICT, 'A')):
+                outers.append((fac, reb, slash, mws))
+    for ifac in (None, 'F1'):
+        for imws in ('none', 'A', 'N'):
+            for o1 in outers:
+                for o2 in outers:
+                    yield ifac, imws, o1, o2
+
+
+def check_reuse(acc, b, ifac, imws, o1, o2):
+    inner_lv = level('/p', imws, {}, S_REDIRECT, ifac, True, False, routes=inner_routes())
+    # build the inner application once
+    inner_app, inner_insts = b.nested([inner_lv])
+    inner_insts = dict(((n, 1), m) for (n, k), m in inner_insts.items())
+    trees = []
+    for fac, reb, slash, mws in (o1, o2):
+        lv0 = level(None, mws, {}, slash, fac, routes=own_routes(0))
+        lv1 = dict(inner_lv, rebind=reb)
+        trees.append([lv0, lv1])
+    # embed it first into outer 1, then into outer 2; both embeddings (and the order) must equal their flat declarations
+    for levels in trees:
+        check_tree(acc, b, levels, 'REUSE', 'constructor', (inner_app, inner_insts))
+    check_tree(acc, b, trees[0], 'REUSE', 'constructor', (inner_app, inner_insts))
 
 
 def nshards(tier):
@@ -305,10 +350,18 @@ def shard(tier, i, n, seed):
             if deadline_passed():
                 acc.extra['cap_hit'] = 1
                 return acc
-            check_tree(acc, b, levels, name)
+            check_tree(acc, b, levels, name, 'add0' if k % 2 else 'constructor')
             acc.add('trees')
             if k % 1777 == i:
                 acc.sample({'layer': name, 'tree': describe(levels)})
+    for j, (ifac, imws, o1, o2) in enumerate(reuse_cases()):
+        if j % n != i:
+            continue
+        if deadline_passed():
+            acc.extra['cap_hit'] = 1
+            return acc
+        check_reuse(acc, b, ifac, imws, o1, o2)
+        acc.add('trees', 3)
     return acc
 
 
@@ -328,7 +381,13 @@ def replay(case):
     common.setup_repo()
     acc = common.Acc()
     b = Builder()
-    check_tree(acc, b, case['levels'], case.get('layer', 'replay'))
+    if case.get('layer') == 'REUSE':
+        for ifac, imws, o1, o2 in reuse_cases():
+            check_reuse(acc, b, ifac, imws, o1, o2)
+            if acc.violations:
+                break
+    else:
+        check_tree(acc, b, case['levels'], case.get('layer', 'replay'), case.get('style', 'constructor'))
     if acc.violations:
         return False, acc.violations[0]['desc'][:3000]
     return True, 'ok'
